@@ -40,7 +40,7 @@ import numpy as np  # noqa: E402
 VERIF = os.path.dirname(os.path.dirname(os.path.abspath(__file__)))
 NVAR = 4
 NPROC = int(os.environ.get("LBV_NPROC", str(min(16, os.cpu_count() or 1))))
-CASE_TIMEOUT = float(os.environ.get("LBV_CASE_TIMEOUT", "120"))
+CASE_TIMEOUT = float(os.environ.get("LBV_CASE_TIMEOUT", "600"))
 MAX_REPLAYS = 12
 
 warnings.simplefilter("ignore")
